@@ -1003,10 +1003,19 @@ impl fmt::Display for Type1<'_> {
 
     t1_str.push_str(&self.type2.to_string());
 
-    if let Type2::Typename { .. } = self.type2 {
-      if self.operator.is_some() {
-        t1_str.push(' ');
-      }
+    // a control operator is separated by blanks on both sides (".size3" is not
+    // ".size 3"); a range operator needs them next to a name ("a..b" is a name)
+    let spaced_operator = matches!(self.type2, Type2::Typename { .. })
+      || matches!(
+        &self.operator,
+        Some(Operator {
+          operator: RangeCtlOp::CtlOp { .. },
+          ..
+        })
+      );
+
+    if spaced_operator && self.operator.is_some() {
+      t1_str.push(' ');
     }
 
     #[cfg(feature = "ast-comments")]
@@ -1021,7 +1030,7 @@ impl fmt::Display for Type1<'_> {
         t1_str.push_str(&comments.to_string());
       }
 
-      if let Type2::Typename { .. } = self.type2 {
+      if spaced_operator {
         t1_str.push(' ');
       }
 
@@ -1036,7 +1045,7 @@ impl fmt::Display for Type1<'_> {
     if let Some(o) = &self.operator {
       t1_str.push_str(&o.operator.to_string());
 
-      if let Type2::Typename { .. } = self.type2 {
+      if spaced_operator {
         t1_str.push(' ');
       }
 
